@@ -1,8 +1,43 @@
 import NetaddrVerif.Model.Proto
-/-! Driver ops of property C04 (stub: filled in by the property's model). -/
+import NetaddrVerif.Model.Contains
+/-! Driver ops of property C04.
+    `contains own|mixin <y> <x>`  y = `N:ver:val:plen` | `R:ver:lo:hi`; x = `A:…` | `N:…` | `R:…` → `T`/`F`
+    `match_all A:ver:val [N:…,…]` → `[ver:val/plen,…]`
+    `match_small …`, `match_large …` → `ver:val/plen` | `-` -/
 namespace NV.Driver.C04
-open NV NV.Proto
+open NV NV.Proto NV.Contains
 
-def handle (_op : String) (_args : List String) : Option String := none
+def parseObj (tok : String) : Option Obj :=
+  if tok.startsWith "A:" then (parseAddr tok).map .addr
+  else if tok.startsWith "N:" then (parseNet tok).map .net
+  else if tok.startsWith "R:" then (parseRng tok).map .rng
+  else none
+
+def parseCont (tok : String) : Option Cont :=
+  if tok.startsWith "N:" then (parseNet tok).map .net
+  else if tok.startsWith "R:" then (parseRng tok).map .rng
+  else none
+
+def showOptNet : Option Net → String
+  | none => "-"
+  | some n => showNet n
+
+def handle (op : String) (args : List String) : Option String :=
+  match op, args with
+  | "contains", [mode, y, x] => do
+    let y ← parseCont y; let x ← parseObj x
+    if mode == "own" then pure (showBool (contains y x))
+    else if mode == "mixin" then pure (showBool (mixinContains y x))
+    else none
+  | "match_all", [ip, l] => do
+    let ip ← parseAddr ip; let l ← (← parseList l).mapM parseNet
+    pure (showList ((allMatching ip l).map showNet))
+  | "match_small", [ip, l] => do
+    let ip ← parseAddr ip; let l ← (← parseList l).mapM parseNet
+    pure (showOptNet (smallestMatching ip l))
+  | "match_large", [ip, l] => do
+    let ip ← parseAddr ip; let l ← (← parseList l).mapM parseNet
+    pure (showOptNet (largestMatching ip l))
+  | _, _ => none
 
 end NV.Driver.C04
